@@ -12,9 +12,20 @@ func init() {
 	register(&PropInfo{ID: "C07", Run: runC07, UseRace: false, Level: "exploration"})
 }
 
+// routeSetting is the route-level override in force for the request's route: 0 unset, 1 on, 2 off.
+func routeSetting(cfg *ChainCfg, r *ChainReq) int {
+	if r.Target == "post" && cfg.ReuseBuilder && cfg.RouteEncPost != 0 {
+		return cfg.RouteEncPost
+	}
+	return cfg.RouteEnc
+}
+
 func encodingEnabledFor(cfg *ChainCfg, r *ChainReq) bool {
 	if cfg.Entry == "Nested" || cfg.Entry == "NestedFilter" {
 		return true // the outer container (encoding on) serves everything through a plain handler
+	}
+	if r.Target == "post" && cfg.ReuseBuilder && cfg.RouteEncPost != 0 {
+		return cfg.RouteEncPost == 1
 	}
 	if r.Target == "route" || r.Target == "post" || r.Target == "route2" {
 		switch cfg.RouteEnc {
@@ -69,7 +80,7 @@ func checkEncoding(x *Ctx, sc *chainScen, reqs []*ChainReq) {
 		}
 		want := tw.W.Body
 		what := fmt.Sprintf("request %d (%s, entry=%s container=%s route=%s Accept-Encoding=%q panic=%q recover=%d)", r.ID, r.Target, cfg.Entry,
-			map[bool]string{true: "on", false: "off"}[cfg.ContEnc], []string{"unset", "on", "off"}[cfg.RouteEnc], r.AE, r.PanicAt, cfg.Recover)
+			map[bool]string{true: "on", false: "off"}[cfg.ContEnc], []string{"unset", "on", "off"}[routeSetting(cfg, r)], r.AE, r.PanicAt, cfg.Recover)
 		if fmt.Sprint(res.Escaped) != fmt.Sprint(tw.Escaped) {
 			x.Violate("escape-differs", "%s: escaped panic %v, without encoding %v", what, res.Escaped, tw.Escaped)
 			continue
